@@ -49,7 +49,7 @@ PASSES = ["RemoveUnusedNodesPass", "IdentityEliminationPass", "NameFixPass", "To
 EDIT_WEIGHTS = {
     "replace_input": 8, "resize_inputs": 2, "resize_outputs": 2, "rauw": 4, "value_name": 6, "value_attrs": 14, "node_attrs": 8, "rename_values": 3,
     "append": 2, "remove": 4, "insert_before": 2, "new_value": 2, "new_node": 3, "io_append": 2, "io_setitem": 2, "io_delitem": 2, "io_pop": 1,
-    "init_setitem": 2, "init_delitem": 2, "init_pop": 1, "sort": 1, "extend": 1,
+    "init_setitem": 2, "init_delitem": 2, "init_pop": 1, "sort": 1, "extend": 1, "meta_mutate": 6,
 }  # fmt: skip
 
 
@@ -70,9 +70,16 @@ def gen_case(run_seed: int, tier: str, index: int = 0) -> dict:
     return {"property": PROPERTY, "run_seed": run_seed, "model_seed": r.randrange(1 << 30), "params": params, "clone": kind, "pass": r.choice(PASSES), "devices": r.random() < 0.3, "edits": edits, "route": route, "meta_noise": r.random() < 0.5, "nested_types": r.choice([0, 0, 1, 2, 3])}
 
 
-def _aux_ids(w: World) -> dict:
+def _aux_ids(w: World, deep: bool = False) -> dict:
     """Identities of the mutable sub-objects that must not be shared."""
     out = {}
+    if deep:
+        for kind_, objs in (("v", w.values), ("n", w.nodes), ("g", w.graphs)):
+            for i, x in enumerate(objs):
+                for key in ("trace", "cfg"):
+                    o = x.meta.get(key)
+                    if isinstance(o, (list, dict)):
+                        out[id(o)] = (f"meta[{key!r}] object", (kind_, i))
 
     def add(kind, obj, owner):
         if obj is not None:
@@ -175,6 +182,19 @@ def run_case(case: dict) -> dict:
         for v in list(model.graph.inputs) + [o for n in model.graph for o in n.outputs][:3]:
             v.meta["analysis"] = 7
             v.metadata_props["note"] = "n"
+        # mutable objects in .meta at every depth (graphs, nodes, values; control-flow bodies; function bodies):
+        # a deep copy must not share them
+        k = 0
+        tops = [model.graph] + [f.graph for f in model.functions.values()]
+        for top in tops:
+            graphs_ = [top] + [sg for n in top.all_nodes() for a_ in n.attributes.values() if not a_.is_ref() and a_.type in (ir.AttributeType.GRAPH, ir.AttributeType.GRAPHS) for sg in ([a_.value] if a_.type == ir.AttributeType.GRAPH else list(a_.value))]
+            for g_ in graphs_:
+                for x in [g_] + list(g_) + [o for n in g_ for o in n.outputs] + list(g_.inputs):
+                    k += 1
+                    if k % 2:
+                        x.meta["trace"] = [k]
+                        x.meta["cfg"] = {"k": [k]}
+                        inc("mutable_meta_objects")
     if case.get("devices") and case["params"].get("ir_version", 10) >= 11:
         try:
             cfg = model.add_device_configuration("cfg0", num_devices=2)
@@ -326,7 +346,8 @@ def run_case(case: dict) -> dict:
         unsorted = case["params"].get("unsorted")
         viol("clone-references-original", f"{kind}: the clone's closure reaches {len(shared)} object(s) of the original, e.g. {obj_kind} {what}", key=f"clone-references-original|{kind}|{obj_kind}|unsorted={unsorted}")
         return res
-    a1, a2 = _aux_ids(w1), _aux_ids(w2)
+    deep = kind.endswith("_deep")
+    a1, a2 = _aux_ids(w1, deep), _aux_ids(w2, deep)
     shared_aux = [k for k in a2 if k in a1]
     if shared_aux and closed:
         k0 = shared_aux[0]
@@ -342,6 +363,8 @@ def run_case(case: dict) -> dict:
     applied = [0, 0]
     for i, (op, side) in enumerate(zip(case["edits"], case["route"])):
         target, other = worlds[side], worlds[1 - side]
+        if op[0] == "meta_mutate" and not deep:
+            continue  # a shallow copy shares the objects stored in .meta by design
         before = snapshot.snapshot(other, tensors=False)
         r = ops.apply_op(target, op)
         trace.append((side, op[0], r[0], r[1] if r[0] == "raise" else None))
